@@ -11,64 +11,64 @@ EX = "exploration"
 # id: (level, technique, text, note)
 CHECKS = {
     "C01": (EX, "bounded-exhaustive enumeration of all conversion paths of length <= 2 over the shipped tables + exact rational check of the written coefficients",
-            "Every ordered unit pair (quick: plus two intermediate units per pair; thorough: every ordered triple) of every quantity type of the three shipped fillers is executed on the real Convert over a 11+3k value alphabet; round trip, path independence, same-unit identity and strict monotonicity are judged metamorphically, and inverse-ness of every row is decided exactly from its coefficients. Complete for the finite table; values are an alphabet.",
+            "Every ordered unit pair (quick: plus two intermediate units per pair; thorough: every ordered triple) of every quantity type of the three shipped fillers is executed on the real Convert over a 11+3k value alphabet; round trip, path independence, same-unit identity and strict monotonicity are judged metamorphically, and inverse-ness of every row is decided exactly from its coefficients. Complete for the finite table; values are an alphabet. The posc sweep is repeated after conversions of every unit pair requested under the Unknown quantity type (depth-2 histories).",
             "floats outside the alphabet not covered (rows are affine: two points determine the map; coefficients compared exactly); tolerance 1e-12 on the base-unit scale"),
     "C03": (MC, "explicit-state BFS over the algebra of derived quantities on the real operators; all same-dimension ordered state pairs judged by an exact dimensional-analysis model",
-            "States are derived Scalars reached by real * and / from 8 (category, unit) atoms (two categories per type, two units per type), de-duplicated on the ordered composing map; for every ordered pair of states with equal dimension vector a+b, a-b, b+a, (a+b)-b run on Scalar and on Array (list/tuple/ndarray) and are compared with the dims model; all ordered unit pairs of all 191 quantity types cover the exponent-1 clause incl. affine units. Exhaustive to depth 2 (quick) / 3 (thorough).",
+            "States are derived Scalars reached by real * and / from 8 (category, unit) atoms (two categories per type, two units per type), de-duplicated on the ordered composing map; for every ordered pair of states with equal dimension vector a+b, a-b, b+a, (a+b)-b run on Scalar and on Array (list/tuple/ndarray) and are compared with the dims model; all ordered unit pairs of all 191 quantity types cover the exponent-1 clause incl. affine units. Exhaustive to depth 2 (quick) / 3 (thorough). Reciprocal atoms (1.0/atom) are start states as well.",
             "histories deeper than the bound and values outside the two value assignments are not covered; db.Convert is the reference for re-expression in the simple part (judged by C01/C02)"),
     "C04": (MC, "explicit-state BFS over the algebra of derived quantities on the real operators; every transition and every ordered state pair judged by an exact dimensional-analysis model",
-            "Every transition of the depth-3 (quick) / depth-4 (thorough) state graph and every ordered pair of depth-2 (quick) / depth-3 (thorough) states is executed through a*b, a/b, a//b, (a*b)/b, a/a, a**1..3 on Scalar, Array[list], Array[ndarray] and the Quantity operators; dimension exponents, absence of zero exponents and base-unit magnitudes are compared with the dims model (exact rationals from the table's coefficients).",
+            "Every transition of the depth-3 (quick) / depth-4 (thorough) state graph and every ordered pair of depth-2 (quick) / depth-3 (thorough) states is executed through a*b, a/b, a//b, (a*b)/b, a/a, a**1..3 on Scalar, Array[list], Array[ndarray] and the Quantity operators; dimension exponents, absence of zero exponents and base-unit magnitudes are compared with the dims model (exact rationals from the table's coefficients). Reciprocal atoms (1.0/atom) are start states as well.",
             "scale-only units and non-zero values as the property states; depth bound; two value assignments"),
     "C20": (MC, "explicit-state BFS over products/quotients of atomic units; every rendered string parsed back with an independent grammar",
-            "Every transition of the depth-3 (quick) / depth-4 (thorough) graph over 10 atomic (category, unit) atoms renders unit, category, quantity-type and unit-name strings that are parsed by an independent implementation of the table's symbol grammar and compared with the composing map; all 6322 (unit, category) pairs of the table are checked as simple quantities incl. repr/str of Scalar and Array.",
+            "Every transition of the depth-3 (quick) / depth-4 (thorough) graph over 10 atomic (category, unit) atoms renders unit, category, quantity-type and unit-name strings that are parsed by an independent implementation of the table's symbol grammar and compared with the composing map; all 6322 (unit, category) pairs of the table are checked as simple quantities incl. repr/str of Scalar and Array. Reciprocals are start states and 1.0/state is judged for every state; the exploration is repeated after every simple table quantity has rendered its strings; objects are asked for a suffix in another unit and then for their own strings again.",
             "atomic composing symbols only (as the property states); depth bound"),
     "C14": (MC, "explicit-state BFS over registration calls on the real UnitDatabase in lock-step with a reference registry; invariants in every state; atomicity of every rejected call",
-            "All histories up to depth 5 (quick) / 6 (thorough) over 29/34 registration calls (valid, duplicate, invalid, overriding, inheriting, legacy-spelled, before-base) are executed on a fresh database; acceptance, unit order and category records are compared with the registry model after every accepted call, invariants I1-I4 (unique symbols, identity base unit, category well-formedness, every unit/category builds a valid Scalar) are evaluated in every state and every rejected call must leave the public fingerprint unchanged. The same invariants run over every unit and category of posc, posc_nocat and simple.",
+            "All histories up to depth 5 (quick) / 6 (thorough) over 29/34 registration calls (valid, duplicate, invalid, overriding, inheriting, legacy-spelled, before-base) are executed on a fresh database; acceptance, unit order and category records are compared with the registry model after every accepted call, invariants I1-I4 (unique symbols, identity base unit, category well-formedness, every unit/category builds a valid Scalar) are evaluated in every state and every rejected call must leave the public fingerprint unchanged. The same invariants run over every unit and category of posc, posc_nocat and simple. A use-everything step lets registrations meet warm caches; every self-loop of a short history is followed by all operations once more.",
             "depth bound (no fixpoint: the registry only grows); implementation-defined argument validation is judged for atomicity only"),
     "C17": (MC, "explicit-state BFS to a fixpoint on the real UnitSystemManager in lock-step with a reference model that also predicts the callback log",
-            "All reachable states of a fresh manager under 37 operations (add with 5 mapping forms incl. one dict shared between calls, remove, select, template, SetDefaultUnit / RemoveCategory on every registered system, GetNewId, ConvertToCurrent) over ids {a, b, 'system 1'} are explored to a fixpoint (15 452 states); accept/reject, ordered ids, mappings, current, template, the callback log delta and query results are compared with the model at every transition; rejected calls must change nothing. thorough adds a third id and more unit choices to depth 6.",
+            "All reachable states of a fresh manager under 37 operations (add with 5 mapping forms incl. one dict shared between calls, remove, select, template, SetDefaultUnit / RemoveCategory on every registered system, GetNewId, ConvertToCurrent) over ids {a, b, 'system 1'} are explored to a fixpoint (15 452 states); accept/reject, ordered ids, mappings, current, template, the callback log delta and query results are compared with the model at every transition; rejected calls must change nothing. thorough adds a third id and more unit choices to depth 6. Every self-loop (rejected call, query) of a history shorter than 4 is followed by all operations once more, in lock-step with the model.",
             "SetCurrent only receives registered systems or None; one on_current per selection event"),
     "C15": (MC, "explicit-state BFS over interleavings of registrations, queries and failing operations on the real database; differential oracle warm database vs fresh database with the same registrations",
-            "All histories to depth 3 (quick) / 5 (thorough) over 9 registrations (two rejected) and 49 closed query terms (lookups, conversions, validity checks, construction, arithmetic, posc helpers, failing calls) run on a database rebuilt per history; the canonical outcome of every transition is compared with the outcome of the same operation on a fresh database that replayed only the registrations, and the public registry fingerprint is compared around every query.",
+            "All histories to depth 3 (quick) / 5 (thorough) over 9 registrations (two rejected) and 49 closed query terms (lookups, conversions, validity checks, construction, arithmetic, posc helpers, failing calls) run on a database rebuilt per history; the canonical outcome of every transition is compared with the outcome of the same operation on a fresh database that replayed only the registrations, and the public registry fingerprint is compared around every query. Process-wide state is kept for the length of a history; one step works with a second database; self-loops of short histories are followed by all operations once more.",
             "operations are closed terms (objects do not persist between steps); depth bound"),
     "C05": (MC, "exhaustive enumeration of all cross-type inputs of the shipped table + every operation sequence up to a depth with a differential (rejected steps deleted) oracle",
-            "(a) all 501k cross-type (unit, category) pairs through the constructors, all cross-type unit pairs (quick: one representative target per foreign type, 294k; thorough: all 2.36M) through the conversions and every ordered pair of depth-2 derived states with different dimension vectors through + - < <= > >= must raise UnitsError/TypeError/ValueError; (b) EVERY sequence of length <= 3 (quick) / 4 (thorough) over 13 valid and 20 invalid operations on persistent operands is executed with no de-duplication: a rejected step leaves operands and registry unchanged and every step's outcome equals its outcome in the history with the rejected steps deleted.",
+            "(a) all 501k cross-type (unit, category) pairs through the constructors, all cross-type unit pairs (quick: one representative target per foreign type, 294k; thorough: all 2.36M) through the conversions and every ordered pair of depth-2 derived states with different dimension vectors through + - < <= > >= must raise UnitsError/TypeError/ValueError; (b) EVERY sequence of length <= 3 (quick) / 4 (thorough) over 13 valid and 20 invalid operations on persistent operands is executed with no de-duplication: a rejected step leaves operands and registry unchanged and every step's outcome equals its outcome in the history with the rejected steps deleted. Every derivable legacy spelling is sent against every foreign quantity type through 17 entry points; the persistent operands include a quantity holding two units of one type.",
             "dimensionless operands and the Unknown quantity type are exempt as the property says; depth bound"),
     "C07": (MC, "explicit-state BFS over closed public operations on the real database; every quantity ever seen re-fingerprinted after every step; interning judged against a reference resolver",
-            "All histories to depth 3 (quick) / 4 (thorough) over 52 operations (creation in every form incl. legacy spelling, list/tuple composing maps, direct constructor, posc helpers; Scalar/Array/Quantity arithmetic; conversions; failing operations; copies; pickling; SetUnknownCaption) on posc with caches reset per history. After every step the fingerprint (all getters, hash, repr) of every tracked quantity must equal its first value, the equality partition must be stable, symmetric and agree with the denoted (category, unit, caption)/composing map, equal quantities hash equal, repeated interned requests return the identical object, copies are identical and pickles equal.",
+            "All histories to depth 3 (quick) / 4 (thorough) over 52 operations (creation in every form incl. legacy spelling, list/tuple composing maps, direct constructor, posc helpers; Scalar/Array/Quantity arithmetic; conversions; failing operations; copies; pickling; SetUnknownCaption) on posc with caches reset per history. After every step the fingerprint (all getters, hash, repr) of every tracked quantity must equal its first value, the equality partition must be stable, symmetric and agree with the denoted (category, unit, caption)/composing map, equal quantities hash equal, repeated interned requests return the identical object, copies are identical and pickles equal. The alphabet includes captions on known units and derived quantities holding two units of one quantity type on either side of arithmetic.",
             "Quantity(category, unit) called directly only needs == and equal hash (it allocates by construction); depth bound"),
     "C11": (MC, "worklist search to a fixpoint over FixedArray and Curve states on the real constructors and methods",
-            "From every constructor form x dimension 0..6 x length 0..6 x list/tuple/ndarray (plus CreateWithQuantity, CreateEmptyArray, category-only forms) the set of FixedArray states (dimension, container kind, unit, category) is closed under CreateCopy variants, arithmetic with numbers/Arrays/FixedArrays/ndarrays of every length, pickle, ChangingIndex (every index, 4 value forms, both use_value_unit) and IndexAsScalar; every object that comes into existence satisfies len(values) == dimension >= 2, size-breaking attempts raise ValueError and leave the source unchanged, ChangingIndex/IndexAsScalar results are compared with db.Convert. Curve states (len image, len domain) are closed under constructor/SetImage/SetDomain with accepted and rejected calls. Fixpoint reached (409 + 10 states).",
+            "From every constructor form x dimension 0..6 x length 0..6 x list/tuple/ndarray (plus CreateWithQuantity, CreateEmptyArray, category-only forms) the set of FixedArray states (dimension, container kind, unit, category) is closed under CreateCopy variants, arithmetic with numbers/Arrays/FixedArrays/ndarrays of every length, pickle, ChangingIndex (every index, 4 value forms, both use_value_unit) and IndexAsScalar; every object that comes into existence satisfies len(values) == dimension >= 2, size-breaking attempts raise ValueError and leave the source unchanged, ChangingIndex/IndexAsScalar results are compared with db.Convert. Curve states (len image, len domain) are closed under constructor/SetImage/SetDomain with accepted and rejected calls. Fixpoint reached (409 + 10 states). Twins sharing one values container with different units are queried alternately; every accepted or rejected Curve call is followed by every call once more on the same curve.",
             "element values are abstracted from the state (no size behaviour depends on them)"),
     "C13": (MC, "explicit-state search over chained operation histories on a pool of real value objects; whole-pool snapshot comparison after every transition",
             "Every history of length <= 2 (quick) / 3 for alias-prone first steps (thorough) of ~60 operation kinds (arithmetic incl. numbers and ndarrays, six comparisons, conversions, CreateCopy variants, ChangingIndex, IndexAsScalar, ConvertFractionValue, validation, formatting, copy/deepcopy/Copy/pickle) applied to a fresh pool of 18 value objects of every class and container kind plus 11 caller-owned containers; later steps operate on results or operands of earlier ones; after every transition every pool member and container is compared with its snapshot at creation; copies and pickles must be ==.",
             "operations on disjoint objects commute (shared state is the database: C15); Array/FractionScalar pickling is outside the property"),
     "C02": (EX, "bounded-exhaustive enumeration of every unit pair x category x conversion route on the real code, differential against the database's float conversion",
-            "Every ordered unit pair of every quantity type (37 040) with the unit's default category - plus every category on the pairs from its default unit (quick) or every category of the type (thorough, ~120k combinations) - goes through 16 public routes (Scalar.GetValue, CreateCopy(unit), ChangeScalars, Quantity.ConvertScalarValue/Convert, db.Convert on float/int/list/tuple/ndarray of length 0,1,4/exponent lists/by category, Array.GetValues incl. list and tuple of tuples, Array.CreateCopy, FixedArray.IndexAsScalar/ChangingIndex with both use_value_unit, UnitSystemManager.ConvertToCurrent/ConvertScalarToCurrent, FractionScalar) over 4 values; every element must equal db.Convert and results keep category, quantity type and unit. Own-unit queries run on all 771 derived states of the depth-3 graph; category defaults in a world with non-zero defaults in non-base units incl. affine.",
+            "Every ordered unit pair of every quantity type (37 040) with the unit's default category - plus every category on the pairs from its default unit (quick) or every category of the type (thorough, ~120k combinations) - goes through 16 public routes (Scalar.GetValue, CreateCopy(unit), ChangeScalars, Quantity.ConvertScalarValue/Convert, db.Convert on float/int/list/tuple/ndarray of length 0,1,4/exponent lists/by category, Array.GetValues incl. list and tuple of tuples, Array.CreateCopy, FixedArray.IndexAsScalar/ChangingIndex with both use_value_unit, UnitSystemManager.ConvertToCurrent/ConvertScalarToCurrent, FractionScalar) over 4 values; every element must equal db.Convert and results keep category, quantity type and unit. Own-unit queries run on all 771 derived states of the depth-3 graph; category defaults in a world with non-zero defaults in non-base units incl. affine. The Scalar/Quantity routes are repeated for every pair on a database warmed by 11 prelude queries per unit; copies made with new values in another unit answer for their own values; every shipped category's default is re-expressed in every unit.",
             "db.Convert on floats is the reference (judged by C01); 4-value alphabet"),
     "C06": (EX, "complete enumeration of the shipped table; every row parsed by an independent grammar and compared with the exact-rational composition of its parts",
             "All 1548 rows are visited: 924 decompose into registered units (product/quotient/power/numeric multiplier, also the row's own symbol read as atom**n) and 150 atomic rows are named SI-prefixed forms of another row; the row factor must equal the composition of the parts' factors as exact rationals built from the written literals, within the precision those literals carry, and the same comparison is repeated through the implementation's own conversions. 55 rows disagree today and are recorded one by one (keyed by row, decomposition and observed factor).",
             "rows the grammar cannot decompose are counted, not judged; literals with < 4 significant digits are exact conventional factors"),
     "C08": (EX, "bounded-exhaustive enumeration of every unit pair with constructed less/greater/exactly-equal probes judged by exact rational amounts; all pairs of an object zoo for equality",
-            "For all 37 040 ordered unit pairs, two amounts and probes physically less, greater (1e-6) and - where exact as rationals and in both float directions (12.5k pairs) - equal, the four order operators are evaluated in both operand orders on Scalar (all pairs) and FractionScalar (quick: 12 units per type; thorough: all) and compared with the exact base-unit amounts; all 36k ordered pairs of quantity types must raise TypeError; ==/!= over all ordered pairs of a 59-object zoo never raise, are reflexive, symmetric, mutually consistent and hash-consistent.",
+            "For all 37 040 ordered unit pairs, two amounts and probes physically less, greater (1e-6) and - where exact as rationals and in both float directions (12.5k pairs) - equal, the four order operators are evaluated in both operand orders on Scalar (all pairs) and FractionScalar (quick: 12 units per type; thorough: all) and compared with the exact base-unit amounts; all 36k ordered pairs of quantity types must raise TypeError; ==/!= over all ordered pairs of a 59-object zoo never raise, are reflexive, symmetric, mutually consistent and hash-consistent. All ordered pairs of 15 FractionValue forms per unit, sequences of 8 comparisons on one pair of FractionScalars in different units, and all ordered pairs of the derived-quantity graph (incl. reciprocal starts) as Quantity and Scalar are judged for order, symmetry and hash consistency.",
             "near-ties differing only by rounding are excluded by construction (the property speaks of physical amounts)"),
     "C09": (EX, "bounded-exhaustive enumeration of the complete product quantity pool x value-object shape x number type x expression on the real operators, judged by raw-number arithmetic and the dims model",
-            "Every combination of a quantity pool (simple, second category, affine, empty, unknown-with-caption and every ordered composing map of the depth-2 (quick) / depth-3 (thorough) derived-quantity graph) x 7 shapes (Scalar, Array and FixedArray over list/tuple/ndarray, lengths 0,1,3) x 13 python/numpy scalar types (+ float/int/0-d ndarrays for containers) x the ten expressions k*x x*k x/k x//k x+k k+x x-k k-x k/x k//x x 2 value assignments is executed; the result must be an object of x's class, keep x's quantity (reciprocal dimension and units for k/x, k//x) and hold the values of the same operation on raw numbers. thorough adds every unit of the table.",
+            "Every combination of a quantity pool (simple, second category, affine, empty, unknown-with-caption and every ordered composing map of the depth-2 (quick) / depth-3 (thorough) derived-quantity graph) x 7 shapes (Scalar, Array and FixedArray over list/tuple/ndarray, lengths 0,1,3) x 13 python/numpy scalar types (+ float/int/0-d ndarrays for containers) x the ten expressions k*x x*k x/k x//k x+k k+x x-k k-x k/x k//x x 2 value assignments is executed; the result must be an object of x's class, keep x's quantity (reciprocal dimension and units for k/x, k//x) and hold the values of the same operation on raw numbers. thorough adds every unit of the table. Numbers include 0, -0.0, +-1; every ordered pair of 40 (shape, expression) steps runs on a fresh database per pair.",
             "Scalar with an ndarray operand is outside the alphabet; float32/float16 operands compared at their precision"),
     "C10": (EX, "bounded-exhaustive enumeration of quantity pairs x operators x container combinations x length pairs on the real Array operators, differential against the element-wise Scalar path",
-            "Every ordered pair of an 18-quantity pool (quick) / of all 101 depth-2 derived states (thorough) x {+ - * / //} x 9 list/tuple/ndarray container combinations x all 16 length pairs in 0..3 is executed: equal lengths must give exactly the element-wise Scalar values and quantity (and raise exactly when the Scalar path raises), unequal lengths must raise. GetValues(unit) is compared with Scalar.GetValue for every ordered unit pair of 6 (quick) / all (thorough) quantity types x containers x lengths incl. lists of tuples; FromScalars over every sequence of length 0..3 of 5 mixed-unit scalars x unit and category choices. The numpy length-1 broadcast (D15) is a recorded finding attributed by a defect model.",
+            "Every ordered pair of an 18-quantity pool (quick) / of all 101 depth-2 derived states (thorough) x {+ - * / //} x 9 list/tuple/ndarray container combinations x all 16 length pairs in 0..3 is executed: equal lengths must give exactly the element-wise Scalar values and quantity (and raise exactly when the Scalar path raises), unequal lengths must raise. GetValues(unit) is compared with Scalar.GetValue for every ordered unit pair of 6 (quick) / all (thorough) quantity types x containers x lengths incl. lists of tuples; FromScalars over every sequence of length 0..3 of 5 mixed-unit scalars x unit and category choices. The numpy length-1 broadcast (D15) is a recorded finding attributed by a defect model. The sequence * / + - // * + is run on ONE pair of operand objects per container combination.",
             "the Scalar path is the reference (judged by C03/C04); fixed element alphabets"),
     "C12": (EX, "bounded-exhaustive enumeration of limit configurations x units x probe alphabets x every element sequence up to a length on real validation, judged by the property's definition",
-            "A database is rebuilt per configuration: 2 quantity types (one affine) x every default unit x 9 limit configurations (none/min/max/both x inclusive/exclusive). For every unit an alphabet of probes (below, just below, exactly at - only where the conversion is exact -, just inside, inside, ..., NaN, +-inf) is validated as Scalar, FractionScalar, through db.CheckValueForCategory and ScalarMinMaxValidator, and EVERY sequence of length 0..3 (thorough 0..4) over the alphabet as Array and FixedArray over list/tuple/ndarray (so every element order), plus lists of tuples; IsValid/CheckValidity must equal the definition on the amounts converted to the default unit, rejections must report a violated limit, its operator and an offending amount, verdicts must be stable on the second call. Registration: 9 limit kinds x default unit x 11-15 valid-unit sets x 6 default values x direct/from_category: rejected, or the defaults satisfy the category's own constraints.",
+            "A database is rebuilt per configuration: 2 quantity types (one affine) x every default unit x 9 limit configurations (none/min/max/both x inclusive/exclusive). For every unit an alphabet of probes (below, just below, exactly at - only where the conversion is exact -, just inside, inside, ..., NaN, +-inf) is validated as Scalar, FractionScalar, through db.CheckValueForCategory and ScalarMinMaxValidator, and EVERY sequence of length 0..3 (thorough 0..4) over the alphabet as Array and FixedArray over list/tuple/ndarray (so every element order), plus lists of tuples; IsValid/CheckValidity must equal the definition on the amounts converted to the default unit, rejections must report a violated limit, its operator and an offending amount, verdicts must be stable on the second call. Registration: 9 limit kinds x default unit x 11-15 valid-unit sets x 6 default values x direct/from_category: rejected, or the defaults satisfy the category's own constraints. Histories validate?;copy;validate over all ordered pairs of limit configurations of two categories with different default units x 6 CreateCopy variants.",
             "db.Convert is the reference conversion (judged by C01); an explicit default_unit outside explicit valid_units is accepted by design"),
     "C16": (EX, "complete enumeration of every derivable legacy spelling x every unit-taking entry point x both request orders, differential against the current spelling",
-            "Every legacy spelling derivable from the substitution list for every table unit (64 today) goes through 35 entry points (ObtainQuantity forms, Scalar/Array/FixedArray/FractionScalar constructors, CreateCopy, GetValue/GetValues, Quantity.Convert, db.Convert in every argument position and container, GetDefaultCategory, GetInfo, CheckValueForCategory, AddCategory(valid_units/default_unit) on a fresh database, arithmetic, comparison), legacy first on a cold cache and current first; results must equal those of the current spelling and objects must report the current symbol; every one of the 1548 current symbols must be a fixed point of the rewrite, and the rewrite idempotent. thorough adds every conversion target of the type.",
+            "Every legacy spelling derivable from the substitution list for every table unit (64 today) goes through 35 entry points (ObtainQuantity forms, Scalar/Array/FixedArray/FractionScalar constructors, CreateCopy, GetValue/GetValues, Quantity.Convert, db.Convert in every argument position and container, GetDefaultCategory, GetInfo, CheckValueForCategory, AddCategory(valid_units/default_unit) on a fresh database, arithmetic, comparison), legacy first on a cold cache and current first; results must equal those of the current spelling and objects must report the current symbol; every one of the 1548 current symbols must be a fixed point of the rewrite, and the rewrite idempotent. thorough adds every conversion target of the type. Every legacy spelling is used with every non-default category of its type first (cold cache) and then category-less; registration/query histories on a fresh small database compare legacy and current spellings on twin databases.",
             "the substitution list is read from barril; a conversion between the two spellings of one unit may differ by rounding (same-unit shortcut is taken on the spelling)"),
     "C18": (EX, "bounded-exhaustive enumeration of Fraction pairs, FractionValue triples, CreateFromFloat inputs and FractionScalar unit pairs, judged by exact rational arithmetic and by the Scalar path",
             "(A) all 16x16 Fraction pairs x + - * / % and six comparisons, numbers on both sides, ** -2..3, unary operations and setters against fractions.Fraction; (B) 11 numbers x 7 numerators x denominators 1..64: float, copy, str->CreateFromString in both locale modes exactly, order operators over all ordered pairs of a third of them; (C) CreateFromFloat on every +-n/10^k (n <= 10^4, k <= 4) and terminating i + p/q (q <= 64); (D) every ordered unit pair of every quantity type x 3 (thorough 5) fraction values: FractionScalar.GetValue, db.Convert(FractionValue) and order operators against Scalar(float(value)). D11b (numerator quantised by Fraction) is a recorded finding attributed by a defect model.",
             "order of FractionValues judged where exact amounts differ by > 1e-9 or floats are identical; format/parse for %g-positional numbers"),
     "C19": (EX, "complete enumeration of every unit and category of the table x construction forms, pairwise equality inside each family",
-            "Every unit (1548) with its resolved default category (which must exist and have the unit's quantity type) - and every other category of the type for the first/last unit of each type (quick) or for every unit (thorough) - x 3 values is built through 13 Scalar forms, 6 FractionScalar forms, 8 Array and 7 FixedArray forms over list/tuple/ndarray of length 0..3; all forms of a family are compared pairwise with == and != in both directions; eval(repr(scalar)) == scalar; every category (328): category-only form vs default value/unit forms for the four classes and Scalar(c, unit=u) for every unit.",
+            "Every unit (1548) with its resolved default category (which must exist and have the unit's quantity type) - and every other category of the type for the first/last unit of each type (quick) or for every unit (thorough) - x 3 values is built through 13 Scalar forms, 6 FractionScalar forms, 8 Array and 7 FixedArray forms over list/tuple/ndarray of length 0..3; all forms of a family are compared pairwise with == and != in both directions; eval(repr(scalar)) == scalar; every category (328): category-only form vs default value/unit forms for the four classes and Scalar(c, unit=u) for every unit. Default-category forms are rebuilt after requests of the unit with every other category; category-only forms after every Scalar(c, unit=u).",
             "values {1.5, -2.0, 0.0}"),
 }
 
@@ -118,7 +118,7 @@ def main():
         ],
         "checks": checks,
         "not_applicable": na,
-        "notes": "All checks are exhaustive within stated bounds (no sampling). Known findings: /verif/known_findings.json. Seeded-change demos: /verif/seeded/.",
+        "notes": "All checks are exhaustive within stated bounds (no sampling). In the thorough tier every check runs twice: on cold caches and on databases warmed by a broad pack of foreign requests. Known findings: /verif/known_findings.json. Seeded-change demos (80, written by independent sub-agents): /verif/seeded/, table in DESIGN.md section 9.4.",
     }
     with open(os.path.join(VERIF, "MANIFEST.json"), "w") as f:
         json.dump(manifest, f, indent=1)
